@@ -48,6 +48,7 @@ Definition py_int10_text (maxdigits : N) (l : bytes) : option Z :=
 
 (* integer(bytes, 16): int(bytes, 16); optional 0x/0X prefix, one '_' allowed right after it *)
 Definition py_int16_bytes (l : bytes) : option Z :=
+  if existsb (fun c => beq c SP) l then None else   (* integer(): b' ' in number -> ValueError *)
   let s := strip l in
   let (neg, r) := split_sign s in
   let r1 := match r with
